@@ -3,7 +3,7 @@ use crate::dbg::{json_str, to_json_or_err};
 use crate::ops::res_json;
 use crate::util::*;
 use malachite_bigint::BigInt;
-use rustpython_format::cformat::{CFormatBytes, CFormatSpec, CFormatString, CFormatType};
+use rustpython_format::cformat::{CConversionFlags, CFormatBytes, CFormatPart, CFormatPrecision, CFormatQuantity, CFormatSpec, CFormatString, CFormatType};
 use rustpython_format::{CharLen, FieldName, FormatSpec, FormatString, FromTemplate};
 use rustpython_literal::escape::{AsciiEscape, Escape, UnicodeEscape};
 use rustpython_literal::float;
@@ -41,6 +41,28 @@ fn strres<E: std::fmt::Debug>(r: Result<String, E>) -> String {
     }
 }
 
+fn bind_stars(sp: &mut CFormatSpec, v: usize) -> usize {
+    let mut n = 0;
+    if matches!(sp.min_field_width, Some(CFormatQuantity::FromValuesTuple)) {
+        sp.min_field_width = Some(CFormatQuantity::Amount(v));
+        n += 1;
+    }
+    if matches!(sp.precision, Some(CFormatPrecision::Quantity(CFormatQuantity::FromValuesTuple))) {
+        sp.precision = Some(CFormatPrecision::Quantity(CFormatQuantity::Amount(v)));
+        n += 1;
+    }
+    n
+}
+
+fn apply_spec(sp: &CFormatSpec, v: i64) -> String {
+    match &sp.format_type {
+        CFormatType::Number(_) => sp.format_number(&BigInt::from(v)),
+        CFormatType::Float(_) => sp.format_float(v as f64),
+        CFormatType::Character => sp.format_char(char::from_u32(v as u32).expect("char")),
+        CFormatType::String(_) => sp.format_string(v.to_string()),
+    }
+}
+
 pub fn dispatch(op: &str, a: &[&str]) -> Option<String> {
     Some(match op {
         // ---- C18 ----
@@ -71,7 +93,22 @@ pub fn dispatch(op: &str, a: &[&str]) -> Option<String> {
             let spec = unhex(a[0]);
             match spec.parse::<CFormatSpec>() {
                 Err(e) => format!("{{\"err\":{}}}", to_json_or_err(&format!("{:?}", e))),
-                Ok(s) => {
+                Ok(mut s) => {
+                    // optional '*' bindings: a[3] = width, a[4] = precision (decimal, may be negative for width)
+                    if let Some(w) = a.get(3).filter(|x| !x.is_empty()) {
+                        let w: i64 = w.parse().unwrap();
+                        if matches!(s.min_field_width, Some(CFormatQuantity::FromValuesTuple)) {
+                            // a negative '*' width means left adjustment, exactly as the interpreter binds it
+                            if w < 0 { s.flags |= CConversionFlags::LEFT_ADJUST; }
+                            s.min_field_width = Some(CFormatQuantity::Amount(w.unsigned_abs() as usize));
+                        }
+                    }
+                    if let Some(p) = a.get(4).filter(|x| !x.is_empty()) {
+                        let p: i64 = p.parse().unwrap();
+                        if matches!(s.precision, Some(CFormatPrecision::Quantity(CFormatQuantity::FromValuesTuple))) {
+                            s.precision = Some(CFormatPrecision::Quantity(CFormatQuantity::Amount(p.max(0) as usize)));
+                        }
+                    }
                     let ty = match &s.format_type {
                         CFormatType::Number(_) => "i",
                         CFormatType::Float(_) => "f",
@@ -90,6 +127,64 @@ pub fn dispatch(op: &str, a: &[&str]) -> Option<String> {
                     match out {
                         Some(o) => format!("{{\"ok\":{},\"ty\":\"{}\",\"spec\":{}}}", o, ty, specj),
                         None => format!("{{\"skip\":\"type mismatch\",\"ty\":\"{}\",\"spec\":{}}}", ty, specj),
+                    }
+                }
+            }
+        }
+        "cfmt_apply" => {
+            // cfmt_apply <s|y> <hextemplate> <int v>: parse the template and format every specifier with the value v
+            // (the harness plays the interpreter: it binds '*' quantities to v and picks format_* by the specifier's type)
+            let v: i64 = a[2].parse().unwrap();
+            if a[0] == "s" {
+                match unhex(a[1]).parse::<CFormatString>() {
+                    Err(e) => format!("{{\"err\":{},\"index\":{}}}", to_json_or_err(&format!("{:?}", e.typ)), e.index),
+                    Ok(mut t) => {
+                        let chk = t.check_specifiers();
+                        let mut out = String::new();
+                        let mut nspec = 0usize;
+                        let mut nstar = 0usize;
+                        let mut keyed = 0usize;
+                        for (_, part) in t.iter_mut() {
+                            match part {
+                                CFormatPart::Literal(l) => out.push_str(l),
+                                CFormatPart::Spec(sp) => {
+                                    nspec += 1;
+                                    if sp.mapping_key.is_some() { keyed += 1; }
+                                    nstar += bind_stars(sp, v as usize);
+                                    out.push_str(&apply_spec(sp, v));
+                                }
+                            }
+                        }
+                        format!("{{\"ok\":{},\"nspec\":{},\"nstar\":{},\"keyed\":{},\"check\":{}}}", json_str(&out), nspec, nstar, keyed,
+                            match chk { Some((c, m)) => format!("[{},{}]", c, m), None => "null".into() })
+                    }
+                }
+            } else {
+                match CFormatBytes::parse_from_bytes(&unhex_bytes(a[1])) {
+                    Err(e) => format!("{{\"err\":{},\"index\":{}}}", to_json_or_err(&format!("{:?}", e.typ)), e.index),
+                    Ok(mut t) => {
+                        let chk = t.check_specifiers();
+                        let mut out: Vec<u8> = Vec::new();
+                        let mut nspec = 0usize;
+                        let mut nstar = 0usize;
+                        let mut keyed = 0usize;
+                        for (_, part) in t.iter_mut() {
+                            match part {
+                                CFormatPart::Literal(l) => out.extend_from_slice(l),
+                                CFormatPart::Spec(sp) => {
+                                    nspec += 1;
+                                    if sp.mapping_key.is_some() { keyed += 1; }
+                                    nstar += bind_stars(sp, v as usize);
+                                    match &sp.format_type {
+                                        CFormatType::String(_) => out.extend_from_slice(&sp.format_bytes(v.to_string().as_bytes())),
+                                        CFormatType::Character => out.extend_from_slice(&sp.format_bytes(&[v as u8])),
+                                        _ => out.extend_from_slice(apply_spec(sp, v).as_bytes()),
+                                    }
+                                }
+                            }
+                        }
+                        format!("{{\"okhex\":\"{}\",\"nspec\":{},\"nstar\":{},\"keyed\":{},\"check\":{}}}", hex(&out), nspec, nstar, keyed,
+                            match chk { Some((c, m)) => format!("[{},{}]", c, m), None => "null".into() })
                     }
                 }
             }
